@@ -47,7 +47,11 @@ CLAIMED = {
                 "open path), read-only databases, a Database dropped with a live write transaction and readers outliving it. A genuine "
                 "defect found by this check (read beyond the end of a file truncated inside the header) was fixed (known_findings.json). Forced "
                 "schedules park a reader between the closed-latch test and each of its backend reads while another thread drops the Database: "
-                "the second genuine defect (a backend read reaching the backend after close()) was reproduced this way and fixed.",
+                "the second genuine defect (a backend read reaching the backend after close()) was reproduced this way and fixed. The fix is "
+                "modelled as an interleaving state machine (Model/CloseGuard.lean: any number of caller threads, shared / exclusive guard, "
+                "latch flags) with theorems for every reachable state: no call after or overlapping close, close at most once, callers "
+                "arriving after the flags are refused, the closer is eventually enabled; the unguarded and the partially guarded variant "
+                "have reachable executions with a call after close (by decide). The forced schedules are replayed on that model.",
         "note": NOTE + "; bounds are observed, not proved about the code; of all thread interleavings only the close-versus-in-flight-read schedules are forced",
         "technique": "Lean 4 proof (contract automaton, layout arithmetic) + recording backend on the real code",
         "design_ref": "DESIGN.md §6 C20",
